@@ -1218,6 +1218,8 @@ class BaseGateway:
 
 
 class WorkerGateway(BaseGateway):
+    _executetask_complete: Event | None = None
+
     def _local_schedulexec(self, channel: Channel, sourcetask: bytes) -> None:
         if self._execpool.execmodel.backend == "main_thread_only":
             assert self._executetask_complete is not None
@@ -1303,6 +1305,7 @@ class WorkerGateway(BaseGateway):
                 self._trace("execution finished")
         except KeyboardInterrupt:
             channel.close(INTERRUPT_TEXT)
+            self._executetask_finished()
             raise
         except EOFError:
             self._trace("ignoring EOFError because receiving finished")
@@ -1312,12 +1315,17 @@ class WorkerGateway(BaseGateway):
                 self._trace(f"got exception: {exc!r}")
                 errortext = self._geterrortext(exc)
                 channel.close(errortext)
+                self._executetask_finished()
                 return
         channel.close()
+        self._executetask_finished()
+
+    def _executetask_finished(self) -> None:
         if self._executetask_complete is not None:
-            # Indicate that this task has finished executing, meaning
-            # that there is no possibility of it triggering a deadlock
-            # for the next spawn call.
+            # Indicate that this task has finished executing (whether it
+            # returned, raised or was interrupted), meaning that there is
+            # no possibility of it triggering a deadlock for the next
+            # spawn call.
             self._executetask_complete.set()
 
 
